@@ -8,6 +8,7 @@ CONSTANTS
   RefreshOnDedup = TRUE
   Faulty = TRUE
   Sample = FALSE
+  ExactOnly = FALSE
   Late = FALSE
   OutFile = "purge.ndjson"
 CONSTRAINT Dump
